@@ -115,6 +115,9 @@ pub struct Prop {
     pub post: Option<fn(&Ctx, &mut Stats) -> Vec<Failure>>,
     /// per case watchdog in seconds
     pub watchdog_s: u64,
+    /// the property itself promises termination: a case that exceeds the watchdog and then also
+    /// fails to finish twice in fresh processes is reported as a violation, not as inconclusive
+    pub hang_is_violation: bool,
     /// shrink iterations (quick tier; thorough uses 8x)
     pub shrink_iters: u32,
 }
@@ -177,6 +180,43 @@ pub fn run_case(prop: &Prop, bytes: &[u8], ctx: &Ctx) -> Verdict {
 
 struct Watch {
     slots: Vec<Mutex<Option<(Instant, Vec<u8>)>>>,
+}
+
+/// replay the saved input in two fresh processes; true if neither finishes within twice the watchdog
+fn confirm_hang(path: &Path, watchdog_s: u64) -> bool {
+    let exe = match std::env::current_exe() {
+        Ok(e) => e,
+        Err(_) => return false,
+    };
+    let mut children: Vec<std::process::Child> = Vec::new();
+    for _ in 0..2 {
+        match std::process::Command::new(&exe)
+            .arg("replay")
+            .arg(path)
+            .stdout(std::process::Stdio::null())
+            .stderr(std::process::Stdio::null())
+            .spawn()
+        {
+            Ok(c) => children.push(c),
+            Err(_) => return false,
+        }
+    }
+    let start = Instant::now();
+    let limit = Duration::from_secs(2 * watchdog_s);
+    let mut finished = false;
+    while start.elapsed() < limit && !finished {
+        std::thread::sleep(Duration::from_millis(500));
+        for c in children.iter_mut() {
+            if let Ok(Some(_)) = c.try_wait() {
+                finished = true;
+            }
+        }
+    }
+    for c in children.iter_mut() {
+        let _ = c.kill();
+        let _ = c.wait();
+    }
+    !finished
 }
 
 pub struct Outcome {
@@ -252,7 +292,18 @@ pub fn explore(prop: &Prop, tier: Tier, seed: u64) -> Outcome {
                     let guard = slot.lock().unwrap();
                     if let Some((since, bytes)) = &*guard {
                         if since.elapsed() > Duration::from_secs(prop.watchdog_s) {
-                            let path = write_replay(prop.id, "watchdog", bytes, "case exceeded the watchdog", tier, seed, &json!({}));
+                            let sig = format!("{}/hang", prop.id);
+                            let path = write_replay(prop.id, &sig, bytes, "case exceeded the watchdog", tier, seed, &json!({}));
+                            if prop.hang_is_violation && confirm_hang(&path, prop.watchdog_s) {
+                                println!(
+                                    "  failure [{}]: a case did not finish within {} s and, replayed twice in fresh processes, did not finish within {} s either",
+                                    sig,
+                                    prop.watchdog_s,
+                                    2 * prop.watchdog_s
+                                );
+                                println!("VIOLATION property={} replay={}", prop.id, path.display());
+                                std::process::exit(1);
+                            }
                             println!(
                                 "INCONCLUSIVE property={} partition={} a case ran longer than {} s; input saved to {}",
                                 prop.id,
